@@ -91,12 +91,12 @@ const (
 
 // Code128 is the structure record of a decoded symbol.
 type Code128 struct {
-	Runes    []rune
-	Values   []int // start character and data characters (no check character, no stop)
-	Check    int   // value of the check character, -1 if none was expected
-	WantCk   int   // (start + sum i*v_i) mod 103 computed from Values
-	Sets     string // the sequence of code sets used, e.g. "BCB"
-	Shifts   int
+	Runes  []rune
+	Values []int  // start character and data characters (no check character, no stop)
+	Check  int    // value of the check character, -1 if none was expected
+	WantCk int    // (start + sum i*v_i) mod 103 computed from Values
+	Sets   string // the sequence of code sets used, e.g. "BCB"
+	Shifts int
 }
 
 // DecodeCode128 decodes a complete symbol. withCheck tells whether the last character
